@@ -208,6 +208,49 @@ def unit_inferred_gtf(U):
                         z3.BoolVal(bool(ok)), {}, replay=replay)
 
 
+def unit_fresh_parse(U):
+    """re-parsing: every feature_from_line / Feature(attributes=<str>) call builds its own containers - the mapping, each
+    value list, the dialect and its key order are not shared with the result of an earlier parse of the same text (or an
+    in-place edit of one Feature would change what the next parse of the printed line returns)"""
+    picks = [(n, D) for n, D in A.dialects() if n in ("k=v|';'|notrail|norep", 'k "v"|\'; \'|trail|norep')]
+    for dname, D in picks:
+        it = Interp()
+        A.install(it)
+
+        def run(ctx, D=D):
+            items = []
+            for ai, n in enumerate((1, 2)):
+                vals = [A.value_hole("v%d_%d" % (ai, j), D) for j in range(n)]
+                for v in vals:
+                    for c in v.light_constraints():
+                        ctx.assume(c)
+                items.append((A.KEYS[ai], vals))
+            attr = A.enc(items, D)
+            line = SStr([Lit("c\ts\tt\t1\t2\t.\t+\t.\t")] + list(SStr.of(attr).atoms))
+            f1 = it.call(F.feature_from_line, [line], {})
+            f2 = it.call(F.feature_from_line, [line], {})
+            return f1, f2
+
+        def replay(m, D=D, dname=dname):
+            f = F.Feature(seqid="c", source="s", featuretype="t", start=1, end=2, attributes={"ID": ["a"], "Name": ["x", "y"]}, dialect=dict(D))
+            line = str(f)
+            g1 = F.feature_from_line(line)
+            g1.attributes["Name"].append("added_later")
+            g1.dialect["order"].append("Zzz")
+            g2 = F.feature_from_line(line)
+            obs = {"Name": list(g2.attributes["Name"]), "order": list(g2.dialect["order"])}
+            return {"inputs": {"dialect": dname, "line": line, "steps": "parse, edit the first result in place, parse the same line again"},
+                    "expected": {"Name": ["x", "y"], "order": ["ID", "Name"]}, "observed": obs, "violates": obs != {"Name": ["x", "y"], "order": ["ID", "Name"]}}
+        for p in U.explore(run, it):
+            ok = p.kind == "return"
+            if ok:
+                f1, f2 = p.value
+                d1, d2 = f1.attributes._d, f2.attributes._d
+                ok = (f1 is not f2 and f1.attributes is not f2.attributes and d1 is not d2 and all(d1[k] is not d2[k] for k in d1 if k in d2)
+                      and f1.dialect is not f2.dialect and f1.dialect["order"] is not f2.dialect["order"])
+            U.prove("C08.fresh_parse[%s]#p%d" % (dname, p.index), "two parses of the same line share no mutable container (mapping, value lists, dialect, key order)", [], z3.BoolVal(bool(ok)), {}, replay=replay)
+
+
 def unit_nine_columns(U):
     """str(Feature(attributes=dict, dialect=D)) is nine tab-separated columns plus the extra columns"""
     it = Interp()
@@ -236,7 +279,7 @@ def unit_nine_columns(U):
                         z3.BoolVal(bool(ok)), {}, replay=lambda mm, dname=dname, D=D: native_supplied(dname, D, (1, 2)))
 
 
-UNITS = [("quoter", unit_quoter), ("supplied.kv", _unit_supplied(("k=v", 'k="v"'))), ("supplied.sp", _unit_supplied(('k "v"', "k v"))), ("nine_columns", unit_nine_columns), ("inferred.gtf", unit_inferred_gtf)]
+UNITS = [("quoter", unit_quoter), ("supplied.kv", _unit_supplied(("k=v", 'k="v"'))), ("supplied.sp", _unit_supplied(('k "v"', "k v"))), ("nine_columns", unit_nine_columns), ("inferred.gtf", unit_inferred_gtf), ("fresh_parse", unit_fresh_parse)]
 try:
     from standins import C08 as _S
     UNITS = UNITS + list(_S.UNITS)
